@@ -202,7 +202,19 @@ func (c *simConn) Write(b []byte) (int, error) {
 		if !c.deadline.IsZero() && simrt.Now().Add(d).After(c.deadline) {
 			simrt.Sleep(c.deadline.Sub(simrt.Now()))
 			w.faults.Add("write_deadline_exceeded", 1)
-			return 0, timeoutErr{}
+			// the peer's window closed after part of the data was accepted: Write reports how
+			// many bytes went out together with the timeout (what a TCP conn does)
+			n := 0
+			if w.sc.PartialWrite > 0 {
+				n = w.sc.PartialWrite % len(b)
+			}
+			if n > 0 {
+				w.faults.Add("partial_write_at_deadline", 1)
+				w.wire = append(w.wire, b[:n]...)
+				w.sim.Event(0x3717e, uint64(n))
+				w.checkWire(false)
+			}
+			return n, timeoutErr{}
 		}
 		w.faults.Add("write_stall", 1)
 		simrt.Sleep(d)
